@@ -469,6 +469,8 @@ struct ChunkFooter {
 pub struct SecureChunk {
     ptr: NonNull<u8>,
     size: usize,
+    /// alignment of `ptr` (>= 8); also the alignment of the underlying allocation
+    align: usize,
     generation: u32,
     pool_id: u32,
     canary: u32,
@@ -482,22 +484,37 @@ impl SecureChunk {
         (size + 7) & !7
     }
 
-    fn new(size: usize, generation: u32, pool_id: u32) -> Result<Self> {
-        let canary = fastrand::u32(..);
+    /// Offset of the data area inside the allocation: the header sits directly in front of
+    /// the data, and the data starts on an `align` boundary.
+    fn data_offset(align: usize) -> usize {
         let header_size = std::mem::size_of::<ChunkHeader>();
-        let footer_size = std::mem::size_of::<ChunkFooter>();
-        let total_size = header_size + Self::footer_offset(size) + footer_size;
+        (header_size + align - 1) & !(align - 1)
+    }
 
-        let layout = Layout::from_size_align(total_size, 8)
-            .map_err(|_| ZiporaError::invalid_data("Invalid layout for chunk allocation"))?;
+    fn layout(size: usize, align: usize) -> Result<Layout> {
+        let footer_size = std::mem::size_of::<ChunkFooter>();
+        let total_size = Self::data_offset(align)
+            .checked_add(Self::footer_offset(size))
+            .and_then(|n| n.checked_add(footer_size))
+            .ok_or_else(|| ZiporaError::invalid_data("Invalid layout for chunk allocation"))?;
+        Layout::from_size_align(total_size, align)
+            .map_err(|_| ZiporaError::invalid_data("Invalid layout for chunk allocation"))
+    }
+
+    fn new(size: usize, align: usize, generation: u32, pool_id: u32) -> Result<Self> {
+        let canary = fastrand::u32(..);
+        let align = align.max(8);
+        let header_size = std::mem::size_of::<ChunkHeader>();
+        let data_offset = Self::data_offset(align);
+        let layout = Self::layout(size, align)?;
 
         let raw_ptr = unsafe { alloc(layout) };
         if raw_ptr.is_null() {
             return Err(ZiporaError::out_of_memory(size));
         }
 
-        // Initialize header
-        let header = raw_ptr as *mut ChunkHeader;
+        // Initialize header (directly in front of the data area)
+        let header = unsafe { raw_ptr.add(data_offset - header_size) } as *mut ChunkHeader;
         unsafe {
             (*header) = ChunkHeader {
                 magic: CHUNK_HEADER_MAGIC,
@@ -511,7 +528,7 @@ impl SecureChunk {
         }
 
         // Initialize footer
-        let footer_ptr = unsafe { raw_ptr.add(header_size + Self::footer_offset(size)) as *mut ChunkFooter };
+        let footer_ptr = unsafe { raw_ptr.add(data_offset + Self::footer_offset(size)) as *mut ChunkFooter };
         unsafe {
             (*footer_ptr) = ChunkFooter {
                 canary,
@@ -521,11 +538,12 @@ impl SecureChunk {
         }
 
         // Return pointer to data area (after header)
-        let data_ptr = unsafe { raw_ptr.add(header_size) };
+        let data_ptr = unsafe { raw_ptr.add(data_offset) };
 
         Ok(Self {
             ptr: unsafe { NonNull::new_unchecked(data_ptr) },
             size,
+            align,
             generation,
             pool_id,
             canary,
@@ -635,16 +653,9 @@ impl SecureChunk {
             }
         }
 
-        let header_size = std::mem::size_of::<ChunkHeader>();
-        let footer_size = std::mem::size_of::<ChunkFooter>();
-        let total_size = header_size + Self::footer_offset(self.size) + footer_size;
-
-        let raw_ptr = unsafe { self.ptr.as_ptr().sub(header_size) };
-        // SAFETY: Layout::from_size_align() cannot fail because:
-        // 1. total_size was successfully used to allocate this chunk
-        // 2. Alignment of 8 is always valid (power of 2)
-        // 3. self.size was validated during allocation
-        let layout = Layout::from_size_align(total_size, 8).unwrap();
+        let raw_ptr = unsafe { self.ptr.as_ptr().sub(Self::data_offset(self.align)) };
+        // SAFETY: the same (size, align) pair produced a valid layout when the chunk was allocated
+        let layout = Self::layout(self.size, self.align).unwrap();
 
         unsafe {
             dealloc(raw_ptr, layout);
@@ -1063,7 +1074,7 @@ impl SecureMemoryPool {
         }
 
         // Fall back to regular allocation
-        let mut chunk = SecureChunk::new(self.config.chunk_size, generation, self.pool_id)?;
+        let mut chunk = SecureChunk::new(self.config.chunk_size, self.config.alignment, generation, self.pool_id)?;
 
         // SIMD-optimized memory zeroing on allocation if configured
         if self.config.zero_on_alloc {
@@ -1265,6 +1276,7 @@ impl SecureMemoryPool {
             let chunk = SecureChunk {
                 ptr: unsafe { NonNull::new_unchecked(data_ptr) },
                 size: self.config.chunk_size,
+                align: self.config.alignment.max(8),
                 generation,
                 pool_id: self.pool_id,
                 canary: header.canary,
